@@ -200,7 +200,8 @@ fn start_lattice(o: &mut Outcome, seed: u64, c: u64, mval: u64, amounts: &[i64])
                 } else {
                     let okv = match err {
                         za::Error::InsufficientFunds => neg,
-                        za::Error::AmountTooLarge(_) => big,
+                        // the documented error carries the unrepresentable value ("greater than 2^63: {0}")
+                        za::Error::AmountTooLarge(x) => big && (x as i128) > (MAXB as i128),
                     };
                     if !okv {
                         o.violate("wrong-error-variant", "customer::Ready::start", format!("amount {} on ({}, {}) returned {:?}", a, c, mval, err));
